@@ -209,6 +209,22 @@ def check(case, ctx):
                     if st != 'ok' or not lib.close(got, exp, tol):
                         ctx.fail('mass-ion-type', exp, got, ion=t, charge=z, monoisotopic=mono, text=s,
                                  deviation=(got - exp) if st == 'ok' else None)
+    # one parsed object that was asked for its masses first (queries), then fragmented: the ions are those of the text
+    if case['mods']:
+        st0, obj = lib.call(p.parse, s)
+        if st0 == 'ok':
+            for q in (lambda: p.mass(obj), lambda: p.mass(obj, charge=2, ion_type='b'), lambda: p.mass(obj, monoisotopic=False),
+                      lambda: p.comp_mass(obj), lambda: p.mz(obj, charge=1)):
+                lib.call(q)
+            a = lib.call(p.fragment, obj, ['b', 'y', 'c', 'z', 'i'], [1, 2])
+            b = lib.call(p.fragment, s, ['b', 'y', 'c', 'z', 'i'], [1, 2])
+            ctx.evals += 7
+            ka = [(f.ion_type, f.start, f.end, f.charge, f.mass) for f in a[1]] if a[0] == 'ok' else str(a[1])[:200]
+            kb = [(f.ion_type, f.start, f.end, f.charge, f.mass) for f in b[1]] if b[0] == 'ok' else str(b[1])[:200]
+            if ka != kb:
+                bad = next(((x, y) for x, y in zip(ka, kb) if x != y), (None, None)) if isinstance(ka, list) and isinstance(kb, list) else (ka, kb)
+                ctx.fail('fragments-after-queries', bad[1], bad[0], text=s,
+                         note='mass / comp_mass / mz were asked of the same annotation object before fragment()')
     ctx.outcome = [s, nions]
 
 
